@@ -17,7 +17,7 @@ from mc.drivers import stores as S
 from mc.lattice import Emb, chunked
 
 CATS = (("A",), ("A", "B"), ("C",), ("C", "D"))
-REGEXES = ("foo", "FOO", "o", "^x", "", "é", ".*", "^$", " ")  # '.*' and '^$' match the empty string; ' ' is whitespace only
+REGEXES = ("foo", "FOO", "o", "^x", "", "é", ".*", "^$", " ", "\\Soo")  # '.*' and '^$' match the empty string; ' ' is whitespace only
 SELECTS = (None, (), ("title",), ("missing",), ("num",), ("missing", "title"))
 EVENT_DATA = (
     {"title": "foo bar", "app": "Editor"},
@@ -28,9 +28,10 @@ EVENT_DATA = (
     {"app": "bar", "title": "baz", "nested": {"title": "foo"}, "lst": ["foo", "xo"]},
     {},
     {"title": "Xfoo", "$category": ["old"], "$tags": ["old"], "É": "É"},
+    {"url": "http://x", "$domain": "foo.org", "$protocol": "http"},  # as split_url_events leaves it: a string under a $-key is a value like any other
 )
 BOUNDS = {
-    "quick": {"rule_alphabet": "4 categories x 9 regexes x 2 ignore_case x 6 select_keys = 432 rules", "rule_lists": "all ordered lists of <=2 rules (187k) + all ordered lists of 3 rules over two 24-rule alphabets (one without, one with differing select_keys; 13.8k each) + all lists of 4 over 9 rules (6.5k); each list is used for categorize, tag (rules rebuilt from the same dicts) and categorize again (same Rule objects)", "events": "8 event shapes in one list", "urls": "2x3x2x2x2x2 components", "titles": "prefix x marker x fps x app-present product"},
+    "quick": {"rule_alphabet": "4 categories x 10 regexes x 2 ignore_case x 6 select_keys = 480 rules", "rule_lists": "all ordered lists of <=2 rules (187k) + all ordered lists of 3 rules over two 24-rule alphabets (one without, one with differing select_keys; 13.8k each) + all lists of 4 over 9 rules (6.5k); each list is used for categorize, tag (rules rebuilt from the same dicts) and categorize again (same Rule objects)", "events": "9 event shapes in one list", "urls": "2x3x2x2x2x2 components", "titles": "prefix x marker x fps x app-present product"},
     "thorough": {"rule_lists": "additionally all ordered lists of 3 rules over 72 rules (373k)", "rest": "as quick"},
 }
 RULE = (
@@ -52,6 +53,13 @@ def ref_match(rule, data):
     vals = [data.get(k) for k in sel] if sel else list(data.values())
     for v in vals:
         if not isinstance(v, str):
+            continue
+        if regex == "\\Soo":
+            # a non-whitespace character followed by "oo" (the class escape itself is case-sensitive syntax:
+            # seeded ignore_case-by-lower-casing-the-pattern turned it into \\s)
+            h = v.lower() if ic else v
+            if any(not h[i].isspace() and h[i + 1 : i + 3] == "oo" for i in range(len(h))):
+                return True
             continue
         hay, needle = (v.lower(), regex.lower()) if ic else (v, regex)
         if needle == ".*":
